@@ -723,10 +723,11 @@ class MultiFit(FitBase):
         """
         # TODO relative errors
         if isinstance(fits, int):
-            self._fits[fits].add_matrix_error(
+            if axis is not None:  # only xy fits know about axes
+                kwargs["axis"] = axis
+            return self._fits[fits].add_matrix_error(
                 err_matrix=err_matrix,
                 matrix_type=matrix_type,
-                axis=axis,
                 name=name,
                 err_val=err_val,
                 relative=relative,
@@ -780,12 +781,13 @@ class MultiFit(FitBase):
         :rtype: str
         """
         if isinstance(fits, int):
-            self._fits[fits].add_error(
+            if axis is not None:  # only xy fits know about axes
+                kwargs["axis"] = axis
+            return self._fits[fits].add_error(
                 err_val=err_val,
                 name=name,
                 correlation=correlation,
                 relative=relative,
-                axis=axis,
                 reference=reference,
                 **kwargs,
             )
